@@ -200,6 +200,7 @@ def check(run):
     # the model whose likelihood is reported is the model that was fitted: no parameter assigned to an instance that cached quantities of the old one
     from .. import opt
     opt.check_frozen_models(run, A, ['pb_bss.distribution'])
+    opt.check_derived_fields(run, A, ['pb_bss.distribution'])
     # an M-step sum that is accumulated block by block over the observations takes every observation: with the last partial block left out the update is not the maximiser of the
     # auxiliary function the E-step (over ALL observations) defines, and the likelihood can fall
     opt.check_block_partitions(run, A, ['pb_bss.distribution.'])
